@@ -1,0 +1,19 @@
+//go:build verif
+
+package dsig
+
+// Contracts for the goblvc verifier (see /verif/DESIGN.md). Comments only.
+//
+// digestText: the compact text of a digest ("<alg>;<val>", fmt.Sprintf) as an
+// uninterpreted function of its two components.
+//@ spec digestText(alg DigestAlgorithm, val string) string = uninterpreted
+//
+//@ func (d *Digest) String() (r)
+//@   trusted X-FMT: fmt.Sprintf("%s;%s", alg, val) is a function of its two arguments
+//@   requires d != nil
+//@   ensures r == digestText(d.Algorithm, d.Value)
+//
+// C08: Equals is nil exactly when algorithm and value agree
+//@ func (d *Digest) Equals(d2) (err)
+//@   requires d != nil && d2 != nil
+//@   ensures err == nil <==> d.Algorithm == d2.Algorithm && d.Value == d2.Value
